@@ -296,8 +296,8 @@ def _interval(conds, var: str):
 def check_prototypes(ctx, num=4):
     P = ctx.P
     cls = _gen_cls(P)
-    from ..util import unroll_const_loops
-    for m in cls.methods.values():
+    from ..util import unroll_const_loops, view_funcs
+    for m in [v for v in view_funcs(P, P.mod(WL)) if v.cls == "WorkloadGenerator"]:      # the methods as analysed: helpers looked through, not on their own
         m = unroll_const_loops(P, m)      # a prototype table scanned by a loop is the if-chain it abbreviates
         for c in calls_named(m, "Segment"):
             lit = all(isinstance(a, ast.Constant) or (isinstance(a, ast.UnaryOp) and isinstance(a.operand, ast.Constant)) for a in list(c.args) + [k.value for k in c.keywords])
